@@ -64,7 +64,7 @@ func parseJournal(data []byte, strict bool) ([]jrec, error) {
 			if kt == 1 {
 				vl, n := binary.Uvarint(p)
 				p = p[n:]
-				rec.vals = append(rec.vals, string(p[:vl]))
+				rec.vals = append(rec.vals, canonVal(string(p[:vl])))
 				p = p[vl:]
 			} else {
 				rec.vals = append(rec.vals, "")
@@ -230,6 +230,9 @@ func c10Drivers() []concParams {
 		// parked: when it commits, one becomes leader and finds the others waiting to be merged
 		{Name: "queue-behind-transaction", Cfg: "roomy/bytewise", Clients: [][]string{{"trq:+z"}, {"put:a"}, {"put:b"}, {"w:+a,+b", "get:a"}}, QB: 2, TB: 3, WQ: 4, WT: 5, Expect: "noerr"},
 		{Name: "queue-behind-transaction-overflow", Cfg: "wide/bytewise", Clients: [][]string{{"trq:+z"}, {"put:a"}, {"put:b"}, {"putL:b"}, {"w:+a,+b", "get:a"}}, QB: 2, TB: 2, WQ: 4, WT: 5, Expect: "noerr"},
+		// the same queue with a record above the fixed 128 KiB merge limit in a roomy buffer: the
+		// oversized writer takes the lock over without having to rotate the buffer first
+		{Name: "queue-behind-transaction-huge", Cfg: "roomy/bytewise", Clients: [][]string{{"trq:+z"}, {"put:a"}, {"put:b"}, {"putH:b"}, {"w:+a,+b", "get:a"}}, QB: 2, TB: 2, WQ: 4, WT: 5, Expect: "noerr"},
 		{Name: "4-writers", Cfg: "roomy/bytewise", Clients: [][]string{{"put:a"}, {"put:b"}, {"put:a"}, {"put:b"}}, QB: 2, TB: 3, Expect: "noerr"},
 	}
 }
